@@ -15,6 +15,21 @@ P = {
           TECH),
 }
 
+P.update({
+  'C02': (True, 'Cache.tla, CacheLin.tla',
+          'TLC exhausts Cache.tla (store atomic under the lock; drain = unlocked emptiness test, locked choose, locked pop; six strategies; dict insertion order) and proves conservation, last-write-wins, no duplicate timestamp in a batch and exact size in every state; simulated behaviours are replayed on the real _MetricCache with the projection compared after each action; line-level schedule exploration (pre-emption bounded exhaustive, then random) of real store/drain/cache-query workloads is recorded and every execution must have a linearization in CacheLin.tla explaining every batch, query result and lock-free size observation.',
+          'source-line granularity (dict/deque operations are atomic under the GIL); cooperative replacement of the cache lock installed on the instance; cache queries issued from the storing thread as in carbon',
+          TECH),
+  'C10': (True, 'Cache.tla, CacheLin.tla',
+          'As C02 with MAX_CACHE_SIZE 1..6 and flow control on/off: TLC proves Bound, RefusalSignalled and the action property RefusalNoEffect on Cache.tla; recorded executions are judged by CacheLin.tla where a refusal must coincide with the overflow signal and leave contents and metric count unchanged, and every lock-free observation of the size must respect floor(hard limit).',
+          'hard limit derived like conf.py (MAX or 1.05*MAX); overflow signal observed by a handler on events.cacheOverflow; line granularity',
+          TECH),
+  'C17': (True, 'Cache.tla, CacheLin.tla',
+          'TLC checks per strategy NeverFails (modulo listed finding F9), NoEmptyBatch, FairPass, MaxFirst, LagRespected and, under fairness without state constraint, the liveness property DrainsEverything; behaviours are replayed on the real strategies (generator snapshots / buckets compared); line-level exploration records choose_item() results under the cache lock so CacheLin.tla evaluates pass fairness, max-first and lag at the choice, and any exception out of store()/drain_metric() is an event.',
+          'random strategy treated as any cached metric; virtual clock for MIN_TIMESTAMP_LAG; line granularity',
+          TECH),
+})
+
 PENDING_REASON = 'check not built yet in this round (planned per DESIGN.md section 5); not claimed until its TLA+ model and conformance harness exist'
 
 
